@@ -31,9 +31,20 @@ def finish(ctx):
         shutil.rmtree(_tmp, ignore_errors=True)
 
 
+BAD_VN = ["H\tVN:Z:1.1", "H\tVN:Z:1.2", "H\tVN:Z:2.1", "H\tVN:Z:1", "H\tVN:Z:2", "H\tVN:Z:3.0", "H\tVN:Z:0.9",
+          "H\tVN:Z:1.00", "H\tVN:Z:gfa1", "H\tVN:Z:2.0.1", "H\tVN:Z:1.0 ", "H\tVN:Z:v1.0"]
+
+
 def gen_doc(rng, nmax):
-    kind = rng.choice(["gfa1", "gfa2", "neutral", "mixed", "mixed", "gfa1", "gfa2"])
+    kind = rng.choice(["gfa1", "gfa2", "neutral", "mixed", "mixed", "gfa1", "gfa2", "badvn"])
     n = rng.randint(2, nmax)
+    if kind == "badvn":
+        # a VN header naming a version which does not exist, among lines of one version
+        base = rng.choice([["S\tA\t*", "S\tB\tACGT", "L\tA\t+\tB\t-\t*"], ["S\tA\t10\t*", "S\tB\t4\tACGT",
+                           "E\te\tA+\tB-\t0\t1\t0\t1\t*"], []])
+        lines = rng.sample(base, rng.randint(0, len(base))) + rng.sample(NEUTRAL_LINES, rng.randint(0, 2))
+        lines = lines[:max(1, n - 1)] + [rng.choice(BAD_VN)]
+        return kind, lines
     if kind == "gfa1":
         pool = GFA1_LINES + NEUTRAL_LINES
     elif kind == "gfa2":
@@ -224,6 +235,13 @@ def run(case, ctx):
             if out[1] != "VersionError" and doc_verdict[1] in ("version conflict", "rgfa requires gfa1"):
                 ctx.violation("conflict-wrong-class/%s/%s" % (out[1], _cfg_short(case)),
                               "order %r (%s) refused with %s instead of VersionError" % (order, _cfg(case), out[1]))
+                return
+        elif why == "bad" and case["kind"] == "badvn":
+            ctx.count("unsupported_vn_documents_orders")
+            if out[0] == "ok":
+                ctx.violation("unsupported-version-accepted/%s" % _cfg_short(case),
+                              "order %r (%s): a VN header names a version which does not exist, accepted as %s"
+                              % (order, _cfg(case), out[1]))
                 return
         elif why == "ok" and doc_verdict[0] == "VALID":
             if out[0] != "ok":
